@@ -29,6 +29,13 @@ func checkC07(c *Check) {
 	ruleGetTotal(c, p, "R07.5")
 	ruleReaderShutdown(c, p, "R07.6")
 	ruleReleaseAfterUse(c, p, "R07.6")
+	rfns := readerSideFuncs(p)
+	ruleErrorsNotAbsorbed(c, p, "R07.7", rfns, errAbsorbExempt)
+}
+
+// readerSideFuncs: the functions of the reading path whose error results decide
+// what the caller of Read/WriteTo is told.
+func readerSideFuncs(p *Program) []*ssa.Function {
 	var rfns []*ssa.Function
 	for _, fn := range moduleFuncs(p, pkgRoot, pkgStream) {
 		s := shortFn(fn)
@@ -36,7 +43,7 @@ func checkC07(c *Check) {
 			rfns = append(rfns, fn)
 		}
 	}
-	ruleErrorsNotAbsorbed(c, p, "R07.7", rfns, errAbsorbExempt)
+	return rfns
 }
 
 // readerEntryReach: module functions reachable from the Reader entry points.
